@@ -49,9 +49,18 @@ def _boot(cls_path, method):
     return case
 
 
-def opp_rig():
-    if "opp" not in _RIGS:
-        case = _boot("mpf.tests.test_OPP.TestOPPFirmware2", "testOpp")
+# chain -> (test case that boots it, boards with direct inputs, boards with a switch matrix)
+OPP_CHAINS = {
+    "repo": ("mpf.tests.test_OPP.TestOPPFirmware2", "testOpp", [0x20, 0x21, 0x23], [0x23]),
+    # /verif/vlib/opp_case.py: 0x20 inputs only, 0x21 switch matrix only (no wing with direct inputs), 0x22 both
+    "matrix": ("vlib.opp_case.OppMatrixChain", "runTest", [0x20, 0x22], [0x21, 0x22]),
+}
+
+
+def opp_rig(chain="repo"):
+    key = "opp" if chain == "repo" else "opp:" + chain
+    if key not in _RIGS:
+        case = _boot(*OPP_CHAINS[chain][:2])
         plat = case.machine.default_platform
         comm = plat.opp_connection["com1"]
         # stop the poller and the port reader from interfering: the check feeds the decoder directly
@@ -70,8 +79,8 @@ def opp_rig():
                     return fn(chain_serial, msg)
                 return rec
             plat.opp_commands[cmd] = mk()
-        _RIGS["opp"] = (case, plat, comm, seen)
-    return _RIGS["opp"]
+        _RIGS[key] = (case, plat, comm, seen)
+    return _RIGS[key]
 
 
 def fast_rig():
@@ -132,12 +141,36 @@ case_opp = st.fixed_dictionaries({
 })
 
 
+def _opp_items(direct, matrix):
+    return st.one_of(
+        st.tuples(st.just("frame"), st.sampled_from(direct), st.just(False), st.integers(0, 2 ** 32 - 1)),
+        st.tuples(st.just("frame"), st.sampled_from(direct), st.just(False), st.sampled_from([0, 2 ** 32 - 1, 0x0000FF0C, 0xFFFF00F3])),
+        st.tuples(st.just("frame"), st.sampled_from(matrix), st.just(True), st.integers(0, 2 ** 64 - 1)),
+        st.tuples(st.just("frame"), st.sampled_from(matrix), st.just(True), st.sampled_from([0, 2 ** 64 - 1, 1, 1 << 16, 1 << 63, 1 << 25])),
+        st.tuples(st.just("eom")),
+        st.tuples(st.just("corrupt"), st.sampled_from(direct), st.just(False), st.integers(0, 2 ** 32 - 1), st.integers(2, 10),
+                  st.integers(1, 255)),
+        st.tuples(st.just("corrupt"), st.sampled_from(matrix), st.just(True), st.integers(0, 2 ** 32 - 1), st.integers(2, 10),
+                  st.integers(1, 255)),
+        st.tuples(st.just("noise"), st.binary(min_size=1, max_size=12)),
+    ).map(list)
+
+
+case_opp_matrix = st.fixed_dictionaries({
+    "chain": st.just("matrix"),
+    "items": st.lists(_opp_items(OPP_CHAINS["matrix"][2], OPP_CHAINS["matrix"][3]), min_size=1, max_size=25),
+    "cuts": st.lists(st.integers(0, 10 ** 6), max_size=16),
+    "single_bytes": st.booleans(),
+})
+
+
 def opp_build(case):
     """Returns (stream, list of (start, end, kind)), and the same stream with bad frames/noise deleted."""
     stream = b""
     clean = b""
     spans = []
     last = {}
+    matrix_boards = OPP_CHAINS[case.get("chain", "repo")][3]
     for it in case["items"]:
         k = it[0]
         if k == "frame":
@@ -150,7 +183,7 @@ def opp_build(case):
             stream += b"\xff"
             clean += b"\xff"
         elif k == "corrupt":
-            matrix = it[2] and it[1] == 0x23
+            matrix = it[2] and it[1] in matrix_boards
             state = it[3] if not matrix else (it[3] << 32 | it[3])
             f = bytearray(opp_frame(it[1], matrix, state))
             pos = 2 + (it[4] - 2) % (len(f) - 2)
@@ -169,25 +202,27 @@ def opp_build(case):
     return stream, clean, spans, last
 
 
-def opp_reset():
-    case, plat, comm, seen = opp_rig()
+def opp_reset(chain="repo"):
+    case, plat, comm, seen = opp_rig(chain)
     comm.part_msg = b""
     comm._lost_synch = False        # pylint: disable=protected-access
-    for b in OPP_BOARDS:
+    for b in OPP_CHAINS[chain][2]:
         comm._parse_msg(opp_frame(b, False, 2 ** 32 - 1) + b"\xff")      # pylint: disable=protected-access
-    comm._parse_msg(opp_frame(0x23, True, 2 ** 64 - 1) + b"\xff\xff\xff")   # pylint: disable=protected-access
+    for b in OPP_CHAINS[chain][3]:
+        comm._parse_msg(opp_frame(b, True, 2 ** 64 - 1) + b"\xff")   # pylint: disable=protected-access
+    comm._parse_msg(b"\xff\xff")   # pylint: disable=protected-access
     case.advance_time_and_run(0.001)
     del seen[:]
 
 
-def opp_states():
-    case, plat, comm, seen = opp_rig()
+def opp_states(chain="repo"):
+    case, plat, comm, seen = opp_rig(chain)
     return {s.name: s.state for s in case.machine.switches.values()}
 
 
-def opp_deliver(chunks):
-    case, plat, comm, seen = opp_rig()
-    opp_reset()
+def opp_deliver(chunks, chain="repo"):
+    case, plat, comm, seen = opp_rig(chain)
+    opp_reset(chain)
     err = None
     try:
         for c in chunks:
@@ -196,7 +231,7 @@ def opp_deliver(chunks):
         case.advance_time_and_run(0.001)
     except Exception as e:   # pylint: disable=broad-except
         err = e
-    return list(seen), opp_states(), err
+    return list(seen), opp_states(chain), err
 
 
 def chunks_of(stream, case):
@@ -208,15 +243,16 @@ def chunks_of(stream, case):
 
 
 def check_opp(case):
-    rigcase, plat, comm, seen = opp_rig()
+    chain = case.get("chain", "repo")
+    rigcase, plat, comm, seen = opp_rig(chain)
     stream, clean, spans, last = opp_build(case)
     if not stream:
         return Result(None, ["empty"], False)
     chunks, cuts = chunks_of(stream, case)
     vio = []
-    whole_msgs, whole_state, e1 = opp_deliver([stream])
-    part_msgs, part_state, e2 = opp_deliver(chunks)
-    clean_msgs, clean_state, e3 = opp_deliver([clean])
+    whole_msgs, whole_state, e1 = opp_deliver([stream], chain)
+    part_msgs, part_state, e2 = opp_deliver(chunks, chain)
+    clean_msgs, clean_state, e3 = opp_deliver([clean], chain)
     classes = ["single-bytes" if case["single_bytes"] else ("split" if cuts else "whole")]
     inside = any(s < c < e for s, e, k in spans for c in cuts)
     kinds = [k for _, _, k in spans]
@@ -247,7 +283,7 @@ def check_opp(case):
         for sw in rigcase.machine.switches.values():
             num = sw.hw_switch.number
             try:
-                chain, card, idx = num.split("-")
+                _, card, idx = num.split("-")
             except ValueError:
                 continue
             board = 0x20 + int(card)
@@ -656,6 +692,8 @@ def check_flow(case):
 SUBCHECKS = [
     SubCheck("opp", lambda: case_opp, check_opp, quick=1500, thorough=60000, procs_quick=4,
              fuzz={"quick": 1500, "thorough": 100000, "modules": ['mpf.platforms.opp.opp', 'mpf.platforms.opp.opp_serial_communicator', 'mpf.platforms.opp.opp_rs232_intf']}),
+    # a chain with a board that has a switch matrix but no direct inputs (and one with inputs only, one with both)
+    SubCheck("opp_matrix", lambda: case_opp_matrix, check_opp, quick=1000, thorough=40000, procs_quick=3),
     SubCheck("fast", lambda: case_fast, check_fast, quick=1200, thorough=50000, procs_quick=4,
              fuzz={"quick": 1500, "thorough": 100000, "modules": ['mpf.platforms.fast.fast', 'mpf.platforms.fast.communicators.base', 'mpf.platforms.fast.communicators.net_neuron']}),
     SubCheck("pkone", lambda: case_pk, check_pkone, quick=1500, thorough=40000, procs_quick=2,
